@@ -9,7 +9,7 @@ open Xref
 variable {V : Type}
 
 /-- layouts the theorems quantify over: every record takes at least one byte -/
-def Layout.Pos (L : Layout) : Prop := (∀ id, 0 < L.recLen id) ∧ 0 < L.xrefLen
+def Layout.Pos (L : Layout) : Prop := (∀ id, 0 < L.recLen id) ∧ ∀ i, 0 < L.xrefLen i
 
 structure PrepFacts (d0 d : Doc V) (pr : Prep V) : Prop where
   inv : Inv d0 ⟨pr.st2, d.tr⟩
@@ -223,12 +223,12 @@ theorem inv_of_commit (P : Params V) (L : Layout) (hL : L.Pos) (d0 d d' : Doc V)
     rw [hst] at ho ⊢; simp only [commit, List.mem_append, List.mem_singleton] at ho ⊢
     rcases ho with ho | ho
     · have := k4 o ho; omega
-    · subst ho; simp only; have := hL.2; omega
+    · subst ho; simp only; have := hL.2 (saveInfoOf (prep d) w (w.refs.set (prep d).xid (.raw (w.len - (prep d).st2.start) 0)) rows); omega
   · intro o ho
     rw [hst] at ho ⊢; simp only [commit, List.mem_append, List.mem_singleton] at ho ⊢
     rcases ho with ho | ho
-    · have := pf.inv.secs_lt o ho; simp only at this; have := hL.2; omega
-    · subst ho; simp only; have := hL.2; omega
+    · have := pf.inv.secs_lt o ho; simp only at this; have := hL.2 (saveInfoOf (prep d) w (w.refs.set (prep d).xid (.raw (w.len - (prep d).st2.start) 0)) rows); omega
+    · subst ho; simp only; have := hL.2 (saveInfoOf (prep d) w (w.refs.set (prep d).xid (.raw (w.len - (prep d).st2.start) 0)) rows); omega
   · rw [hrefs, List.length_set, f1]; exact pf.inv.refs_len
   · rw [hst]; exact sorted_chInsert _ _ _ hs
   · intro j hj hc
